@@ -1,5 +1,5 @@
 #!/usr/bin/env python3
-"""seedtable.py: writes seeded/TABLE.md (rounds 2 to 8 of the independent seeded changes) from the
+"""seedtable.py: writes seeded/TABLE.md (rounds 2 to 9 of the independent seeded changes) from the
 seeds' notes, the regression matrix seeded/RESULTS.txt and the history notes below, and copies the
 history into each seed's meta.json."""
 import json, os, re
@@ -118,13 +118,26 @@ H = {
  'r8-C19-2': "caught as built (the evaluator script could not place the demonstration, which lives in lib/core/nscore; confirmed after the script was corrected)",
  'r8-C20-1': "initially missed: no panic raised by the Go runtime itself; added (errors.As must still find the runtime.Error)",
  'r8-C20-2': "initially missed: every call was made under a live context; the first legal call of every signature is now repeated directly on the registered function value under a context that has already ended",
+ # round 9 (20 sub-agents, one change each and a second where time allowed: 26 changes, 24 kept; the additions for C08 and C14
+ # were made from the authors' summaries while the evaluation of the round was still running)
+ 'r9-C03-1': "initially missed: every try form was read from text (each with its own position); added all ordered pairs of try forms side by side in a position-less AST, and 5 fixed programs whose try forms are built at run time (macro templates, list/cons + eval)",
+ 'r9-C04-1': "an unlocked read of the global scope in macro detection, racing with a def made by a future: ends in a runtime fatal error that no recover sees; C04 enumerates single-threaded programs, C11's free-running race pass reports it (as r7-C04-2)",
+ 'r9-C08-1': "missed as built (every loop ran under context.Background()); added four more kinds of context (cancellable, far deadline, cancellable child of a deadline, carrying a value); addition made from the author's summary",
+ 'r9-C09-1': "initially missed: the window lies between the unlock and an atomic store, and sync/atomic operations were no scheduling points; added the shim vatomic (import rewritten by the overlay): every atomic operation is preceded by a scheduling point; the linearizability check then reports it at preemption bound 2",
+ 'r9-C10-1': "initially missed: the oracle was a list of real-time rules, none of which relates a cancel to status reads that overlap it; added a brute-force linearizability check of done? / cancelled? / cancel against the sequential future status (reported on T0: cancel || T1: done? cancelled? with a returning body)",
+ 'r9-C14-1': "missed as built (every pair was two separately written literals); added the values-made-by-one-literal family; addition made from the author's summary",
+ 'r9-C15-1': "initially missed: every case was one read, and the undefined placeholder had a name no case ever defined; added every sequence of 3 transports read one after the other, each with its own assignment",
+ 'r9-C17-1': "initially missed: the undefined symbol's name occurred nowhere else in the text; added a filler form that uses the fault's names and literals legally (a parameter of that name, the same forms quoted)",
+ 'r9-C18-1': "initially missed: no evaluation under a context that ends; added 8 fixed programs x 3 contexts (cancelled, deadline passed, ended by the program itself) x every script",
+ 'r9-C19-1': "initially missed: no program compared functions; added a fixed program comparing functions and macros with = (directly and inside collections)",
+ 'r9-C20-2': "initially missed: the context was live or had ended before the call, never ended during it; the error modes are repeated with the evaluation's context ending while the bound function runs",
 }
 res = {}
 for l in open('/verif/seeded/RESULTS.txt'):
     n = l.split(' | ')[0].strip()
     res[n] = [m.group(1) for m in re.finditer(r'\| (C\d\d) rc=1', l)]
 out = []
-for rnd in ('r2', 'r3', 'r4', 'r5', 'r6', 'r7', 'r8'):
+for rnd in ('r2', 'r3', 'r4', 'r5', 'r6', 'r7', 'r8', 'r9'):
     out.append(f"\n**Round {rnd[1]}**\n\n| seed | what it does (first line of the author's notes) | reported by (own-property quick check, regression matrix) | history |\n|---|---|---|---|")
     for d in sorted(os.listdir('/verif/seeded')):
         if not d.startswith(rnd + '-'): continue
